@@ -1,5 +1,6 @@
 import Mq
 import Mq.Ops
+import Spec
 import Std.Data.HashMap
 /-!
 # Driver — line-protocol interpreter for the model (one op per input line, one result line each)
@@ -228,6 +229,11 @@ def step (slots : Slots) (line : String) : Slots × String :=
   | ["RT", s] => match slots.get? s with
     | some ⟨p, false⟩ => (slots, roundTrip p)
     | some ⟨_, true⟩ => (slots, "rt ok")
+    | none => (slots, "bad-op")
+  | ["SPEC", h] => match bytesOfHex h with
+    | some d => match Spec.parse d with
+      | some sp => (slots, "spec " ++ Spec.kindName sp.kind ++ " " ++ View.str sp.view)
+      | none => (slots, "spec reject")
     | none => (slots, "bad-op")
   | ["VB", "enc", n] => match n.toNat? with
     | some v => (slots, "vb " ++ hexOfBytes (encVb v))
